@@ -48,6 +48,8 @@ def jobs(tier, seed):
     add('target-values-2x3', shape=[2, 3], targets='values')
     add('target-values-2x3-maxd', shape=[2, 3], targets='values', maxd=1.0, grid='desc-nonsquare')
     add('target-values-1x3-float32-stores', shape=[1, 3], targets='values', f32=True)
+    add('euclid-2x3-int32', shape=[2, 3], dtype='int32')
+    add('target-values-2x3-uint8-maxd', shape=[2, 3], targets='values', maxd=1.5, dtype='uint8')
     add('single-row-1x4', shape=[1, 4])
     add('single-col-4x1', shape=[4, 1])
     if tier != 'quick':
@@ -96,7 +98,8 @@ def body(ctx, job):
     xsl = [g['x0'] + j * g['dx'] for j in range(w)]
     ys = symnp.asarray(ysl, 'float64')
     xs = symnp.asarray(xsl, 'float64')
-    data = ctx.array('d', (h, w), 'float64', nan=True)
+    dt = job.get('dtype', 'float64')
+    data = ctx.array('d', (h, w), dt, nan=True, **({'lo': 0 if dt[0] == 'u' else -1, 'hi': 2} if dt[0] in 'iu' else {}))
     agg = raster(data, ys=ys, xs=xs, name='r', attrs={'res': (abs(g['dx']), abs(g['dy']))})
     maxd = job['maxd']
     metric = job['metric']
